@@ -702,7 +702,10 @@ def main():
         "wall_s": round(time.time() - t0, 2),
         "violations": len(violations),
     }
-    with open(os.path.join(ROOT, "evidence", f"{pid}.json"), "w") as f:
+    # runs against a scratch copy of the repository (mutation / seed evaluation) must not overwrite the evidence of /repo
+    ev_dir = os.path.join(ROOT, "evidence") if os.path.realpath(REPO) == "/repo" else os.path.join(BUILD, "evidence_scratch")
+    os.makedirs(ev_dir, exist_ok=True)
+    with open(os.path.join(ev_dir, f"{pid}.json"), "w") as f:
         json.dump(ev, f, indent=1)
     print(f"[{pid}] units={len(units)} functions_under_contract={len(fuc)} obligations={claimed} discharged={discharged} "
           f"known_findings={nkn} violations={len(violations)} undecided={len(undecided)} wall={ev['wall_s']}s")
